@@ -271,3 +271,50 @@ def t_entry_wiring_shared(world):
 _t_ews = tasks
 def tasks(tier):
     return _t_ews(tier) + [('entry_wiring', t_entry_wiring_shared)]
+
+
+# ---------------------------------------------------------------- C19.g: draining the fee / insurance vaults: one transfer, from the right vault under its own authority, to the destination the constraint set fixed (C19.b), of the requested amount
+DRAINS = {
+    'withdraw_fees': dict(fn=r'collect_bank_fees::lending_pool_withdraw_fees$', struct='LendingPoolWithdrawFees', src='fee_vault', auth='fee_vault_authority', dst='dst_token_account', clamp=False),
+    'withdraw_insurance': dict(fn=r'collect_bank_fees::lending_pool_withdraw_insurance$', struct='LendingPoolWithdrawInsurance', src='insurance_vault', auth='insurance_vault_authority', dst='dst_token_account', clamp=False),
+    'withdraw_fees_permissionless': dict(fn=r'collect_bank_fees::lending_pool_withdraw_fees_permissionless$', struct='LendingPoolWithdrawFeesPermissionless', src='fee_vault', auth='fee_vault_authority', dst='fees_destination_account', clamp=True),
+}
+
+
+def mk_drain(name):
+    def t(world):
+        from specs.handlers import run_handler, KERNELS, short, account_field_of, TOKEN_DEREF
+        D = DRAINS[name]
+        eng, f, args, res = run_handler(world, D['fn'], summaries=TOKEN_DEREF)
+        ob = Ob('C19.g.' + name, f'{name}: exactly one transfer, out of `{D["src"]}` under `{D["auth"]}`, into `{D["dst"]}` (bound by the constraint set, C19.b), of ' +
+                ('min(requested amount, what the fee vault holds)' if D['clamp'] else 'exactly the requested amount') + '; transfer error propagated; no other vault is touched',
+                [f.name], 'handler mode; token CPI opaque; every accepting path'); ob.paths = len(res)
+        sname = D['struct']; n_ok = 0
+        for r, okc in ok_paths(res):
+            if ob.witness(eng, r, [okc]) is False: continue
+            n_ok += 1
+            Ev = [e for e in flat_events(r['events']) if e[0] == 'call']
+            T = [e for e in Ev if re.search(r'withdraw_spl_transfer$', e[1])]
+            if len(T) != 1: ob.shape(len(T), 1, f'{len(T)} vault transfers on an accepting path', 'drain-count'); continue
+            route = tuple(account_field_of(eng, T[0][2][i], sname) for i in (2, 3, 4))
+            ob.queries += 1
+            if route == (D['src'], D['dst'], D['auth']): ob.unsat += 1
+            else: ob.sat += 1; ob.cex.append({'ob': ob.oid, 'label': f'transfer (from, to, authority) = {route}, expected {(D["src"], D["dst"], D["auth"])}', 'role': 'drain-route', 'model': {}, 'replay': None})
+            amt = T[0][2][1].e; req = args[1].e
+            if D['clamp']:
+                held = [n for n in free_consts(amt) if n.startswith('tok(') and n.endswith('.2')]
+                if len(held) != 1: ob.fail(f'vault balance symbol not identified: {held}'); continue
+                hv = z3.Int(held[0])
+                which = STRUCTS[sname][int(re.search(r'a0\.1\*\.(\d+)', held[0]).group(1))] if re.search(r'a0\.1\*\.(\d+)', held[0]) else held[0]
+                ob.prove(eng, r, [okc], z3.And(amt == z3.If(req <= hv, req, hv), zint(T[0][3].disc) == 0, z3.BoolVal(which == D['src'])), 'amount == min(requested, balance of THAT vault); error propagated', role='drain-amount')
+            else:
+                ob.prove(eng, r, [okc], z3.And(amt == req, zint(T[0][3].disc) == 0), 'amount == requested amount; error propagated', role='drain-amount')
+        ob.notes.append(f'{n_ok} accepting paths')
+        ob.need_witness()
+        return [ob]
+    return t
+
+
+_t19g = tasks
+def tasks(tier):
+    return _t19g(tier) + [('drain:' + n, mk_drain(n)) for n in DRAINS]
